@@ -22,8 +22,8 @@ theorem mem_ids_of_map_eq {q q' : List Mod} (h : q'.map (·.id) = q.map (·.id))
   obtain ⟨m', hm', he⟩ := List.mem_map.1 this
   exact ⟨m', hm', he⟩
 
-theorem funcsLoaded_step {s : State} {op : Op} (hs : s.err = none) (h : (step s op).err = none)
-    (hf : FuncsLoaded s) : FuncsLoaded (step s op) := by
+theorem funcsLoaded_step {s : State} {r : List Op} {op : Op} (hreg : Reg s r) (hs : s.err = none)
+    (h : (step s op).err = none) (hf : FuncsLoaded s) : FuncsLoaded (step s op) := by
   rw [step_of_ok op hs] at h ⊢
   cases op with
   | loadModule id ds =>
@@ -46,7 +46,7 @@ theorem funcsLoaded_step {s : State} {op : Op} (hs : s.err = none) (h : (step s 
           exact hx.symm
         · cases hx
       subst this
-      exact ⟨{ id := id', imps := b.imps }, by simp, rfl⟩
+      exact ⟨{ id := id', imps := b.imps, uid := s.loaded.length }, by simp, rfl⟩
     | none =>
       rw [hx] at hn
       obtain ⟨m, hm, hid⟩ := hf n id' hn
@@ -112,18 +112,90 @@ theorem funcsLoaded_step {s : State} {op : Op} (hs : s.err = none) (h : (step s 
     · exact ⟨codeMod s.env m, List.mem_append_right _ (List.mem_map.2 ⟨m, hm, rfl⟩),
         by rw [(codeMod_fields s.env m).1]; exact hid⟩
 
-theorem funcsLoaded_runFrom {s : State} (h : List Op) (hf : s.err = none → FuncsLoaded s)
+  | reload k =>
+    change (reloadModule s k).err = none at h
+    change FuncsLoaded (reloadModule s k)
+    cases reloadModule_ok h with
+    | absent hl heq => rw [heq]; exact hf
+    | ok id ds b env' hl hb hd heq =>
+      rw [heq]
+      obtain ⟨hE, _, _⟩ := requeue_fields { s with env := env' } k { id := id, imps := b.imps, uid := k }
+      -- every id that had a record keeps one, and `id` has one now
+      have hidk : ∀ m ∈ s.queue ++ s.done, m.uid = k → m.id = id := by
+        intro m hm hk
+        obtain ⟨ds0, h0, _⟩ := hreg.recs m hm
+        rw [hk, hl] at h0; cases h0; rfl
+      have hkeep : ∀ m ∈ s.queue ++ s.done, ∃ m' ∈ (requeue { s with env := env' } k
+          { id := id, imps := b.imps, uid := k }).queue ++ (requeue { s with env := env' } k
+          { id := id, imps := b.imps, uid := k }).done, m'.id = m.id := by
+        intro m hm
+        rcases requeue_cases { s with env := env' } k { id := id, imps := b.imps, uid := k } with
+          ⟨_, hq, hdn⟩ | ⟨m0, hm0, hk0, hq, hdn⟩ | ⟨hq, hdn⟩
+        · rw [hq, hdn]; exact ⟨m, hm, rfl⟩
+        · rw [hq, hdn]
+          rcases List.mem_append.1 hm with h1 | h1
+          · exact ⟨m, List.mem_append_left _ (List.mem_append_left _ h1), rfl⟩
+          · by_cases hu : m.uid = k
+            · refine ⟨{ m0 with iface := none }, List.mem_append_left _
+                (List.mem_append_right _ (List.mem_singleton.2 rfl)), ?_⟩
+              show m0.id = m.id
+              rw [hidk m0 (List.mem_append_right _ hm0) hk0, hidk m hm hu]
+            · exact ⟨m, List.mem_append_right _ (List.mem_filter.2 ⟨h1, by simpa using hu⟩), rfl⟩
+        · rw [hq, hdn]
+          rcases List.mem_append.1 hm with h1 | h1
+          · exact ⟨m, List.mem_append_left _ (List.mem_append_left _ h1), rfl⟩
+          · exact ⟨m, List.mem_append_right _ h1, rfl⟩
+      have hnew : ∃ m' ∈ (requeue { s with env := env' } k { id := id, imps := b.imps, uid := k }).queue ++
+          (requeue { s with env := env' } k { id := id, imps := b.imps, uid := k }).done, m'.id = id := by
+        rcases requeue_cases { s with env := env' } k { id := id, imps := b.imps, uid := k } with
+          ⟨⟨m0, hm0, hk0⟩, hq, hdn⟩ | ⟨m0, hm0, hk0, hq, hdn⟩ | ⟨hq, hdn⟩
+        · rw [hq, hdn]
+          exact ⟨m0, List.mem_append_left _ hm0, hidk m0 (List.mem_append_left _ hm0) hk0⟩
+        · rw [hq, hdn]
+          exact ⟨{ m0 with iface := none }, List.mem_append_left _
+            (List.mem_append_right _ (List.mem_singleton.2 rfl)),
+            hidk m0 (List.mem_append_right _ hm0) hk0⟩
+        · rw [hq, hdn]
+          exact ⟨_, List.mem_append_left _ (List.mem_append_right _ (List.mem_singleton.2 rfl)), rfl⟩
+      intro n id' hn
+      rw [hE] at hn
+      simp only at hn
+      rw [load_env hb hd n] at hn
+      cases hx : declExport id ds n with
+      | some d =>
+        rw [hx] at hn
+        simp only [Option.some.injEq] at hn
+        subst hn
+        have : id' = id := by
+          unfold declExport at hx
+          split at hx
+          · split at hx <;> simp at hx
+            exact hx.symm
+          · cases hx
+        subst this
+        exact hnew
+      | none =>
+        rw [hx] at hn
+        obtain ⟨m, hm, hid⟩ := hf n id' hn
+        obtain ⟨m', hm', hid'⟩ := hkeep m hm
+        exact ⟨m', hm', by rw [hid', hid]⟩
+
+theorem funcsLoaded_runFrom {s : State} {r : List Op} (h : List Op)
+    (hf : s.err = none → (Inv s r ∧ Reg s r) ∧ FuncsLoaded s)
     (he : (runFrom s h).err = none) : FuncsLoaded (runFrom s h) := by
-  induction h generalizing s with
-  | nil => exact hf he
+  induction h generalizing s r with
+  | nil => exact (hf he).2
   | cons op t ih =>
     rw [runFrom_cons] at he ⊢
     have hstep : (step s op).err = none := err_none_of_runFrom he
     have hs : s.err = none := err_none_of_step hstep
-    exact ih (fun _ => funcsLoaded_step hs hstep (hf hs)) he
+    obtain ⟨⟨hi, hr⟩, hfl⟩ := hf hs
+    exact ih (r := op :: r)
+      (fun _ => ⟨⟨inv_step hi hr hs hstep, reg_step hr hs hstep⟩, funcsLoaded_step hr hs hstep hfl⟩) he
 
 theorem funcsLoaded_run {h : List Op} (he : (run h).err = none) : FuncsLoaded (run h) :=
-  funcsLoaded_runFrom h (fun _ => by intro n id hn; simp [init] at hn) he
+  funcsLoaded_runFrom (r := []) h
+    (fun _ => ⟨⟨inv_init, reg_init⟩, by intro n id hn; simp [init] at hn⟩) he
 
 /-! ### `process_inlines` only inlines functions the import is bound to -/
 
